@@ -253,7 +253,9 @@ class RawMeshData:
                         (v3,v4,v8,v7)
                     ]
                 for face in faces_C:
-                    self.cell_faces._elem.append(face_id[utils.keyify(face)])
+                    iF = face_id.get(utils.keyify(face), None)
+                    if iF is None: continue # face absent from the mesh (config.complete_faces_from_cells is off) : no incidence to record
+                    self.cell_faces._elem.append(iF)
                     self.cell_faces._adj.append(iC)
 
     def _complete_edges_from_faces(self):
